@@ -343,6 +343,8 @@ impl Problem {
             "t-c" => t - e.a,
             "y0y1" => y[0] * y[1],
             "y1" => y[1],
+            // a time event of small magnitude: scale (t - a)
+            k if k.starts_with("st-c:") => k[5..].parse::<f64>().unwrap_or(1.0) * (t - e.a),
             // strongly convex in time: exp(rate (t - a)) - 1
             k if k.starts_with("expt:") => (k[5..].parse::<f64>().unwrap_or(1.0) * (t - e.a)).exp() - 1.0,
             _ => 1.0,
